@@ -3812,6 +3812,144 @@ theorem returned_error_in_bailiwick (cfg : Config) (net : Net) (q : Query) (st :
 
 end returnedErr
 
+/-! ## 18. the address filters themselves (`AccessControlSet::denied`)
+
+`Acs.denied` is the model of the real function (prefix sets per family, `to_canonical` only for
+`::ffff:0:0/96`), so `ns_addrs_allowed` / `answers_allowed` above already speak about it.  This
+section states what the family split means. -/
+
+section acl
+
+theorem contains_family {n : IpNet} {ip : Ip} (h : n.contains ip = true) : n.v6 = ip.v6 := by
+  unfold IpNet.contains at h
+  simp only [Bool.and_eq_true, beq_iff_eq] at h
+  exact h.1
+
+theorem any_contains_family (l : List IpNet) (ip : Ip) :
+    l.any (·.contains ip) = (l.filter fun n => n.v6 == ip.v6).any (·.contains ip) := by
+  induction l with
+  | nil => rfl
+  | cons n l ih =>
+    simp only [List.any_cons, List.filter_cons]
+    by_cases hv : n.v6 = ip.v6
+    · simp [hv, ih]
+    · have hc : n.contains ip = false := by
+        cases h : n.contains ip
+        · rfl
+        · exact absurd (contains_family h) hv
+      simp [hv, hc, ih]
+
+/-- the verdict about an address depends only on the networks of the family of its canonical form -/
+theorem denied_family (a : Acs) (ip : Ip) :
+    a.denied ip =
+      ((a.family ip.canonical.v6).deny.any (·.contains ip.canonical) &&
+        !(a.family ip.canonical.v6).allow.any (·.contains ip.canonical)) := by
+  unfold Acs.denied Acs.allowsAll Acs.family
+  dsimp only
+  rw [← any_contains_family a.allow, ← any_contains_family a.deny]
+  by_cases he : a.deny.isEmpty = true
+  · have : a.deny = [] := List.isEmpty_iff.1 he
+    simp [this]
+  · simp only [he, Bool.false_eq_true, ↓reduceIte]
+    exact Bool.and_comm _ _
+
+theorem canonical_of_not_mapped {ip : Ip} (h : ip.isMapped = false) : ip.canonical = ip := by
+  unfold Ip.canonical; simp [h]
+
+/-- **`denied_v6_independent_of_v4_lists`**: for an IPv6 address that is not IPv4-mapped — `::1`,
+`::`, the IPv4-compatible `::a.b.c.d`, link-local, every ordinary address — the verdict is the one
+of the IPv6 lists alone; whatever the IPv4 lists contain is irrelevant. -/
+theorem denied_v6_independent_of_v4_lists (a : Acs) (ip : Ip) (h6 : ip.v6 = true)
+    (hm : ip.isMapped = false) (allow4 deny4 : List IpNet)
+    (h4a : ∀ n ∈ allow4, n.v6 = false) (h4d : ∀ n ∈ deny4, n.v6 = false) :
+    Acs.denied ⟨a.allow ++ allow4, a.deny ++ deny4⟩ ip = (a.family true).denied ip ∧
+    (a.family true).denied ip = a.denied ip := by
+  have key : ∀ b : Acs, b.denied ip =
+      ((b.family true).deny.any (·.contains ip) && !(b.family true).allow.any (·.contains ip)) := by
+    intro b
+    have := denied_family b ip
+    rw [canonical_of_not_mapped hm, h6] at this
+    exact this
+  have hf : ∀ (l l4 : List IpNet), (∀ n ∈ l4, n.v6 = false) →
+      (l ++ l4).filter (fun n => n.v6 == true) = l.filter (fun n => n.v6 == true) := by
+    intro l l4 h
+    rw [List.filter_append]
+    have : l4.filter (fun n => n.v6 == true) = [] := by
+      rw [List.filter_eq_nil_iff]
+      intro n hn
+      simp [h n hn]
+    rw [this, List.append_nil]
+  constructor
+  · rw [key, key]
+    simp only [Acs.family, hf a.allow allow4 h4a, hf a.deny deny4 h4d, List.filter_filter,
+      Bool.and_self]
+  · rw [key, key]
+    simp only [Acs.family, List.filter_filter, Bool.and_self]
+
+/-- in particular: listed in an IPv6 deny network and in no IPv6 allow network ⇒ denied -/
+theorem denied_of_v6_deny (a : Acs) (ip : Ip) (h6 : ip.v6 = true) (hm : ip.isMapped = false)
+    (hd : ∃ n ∈ a.deny, n.contains ip = true) (ha : ∀ n ∈ a.allow, n.contains ip = false) :
+    a.denied ip = true := by
+  unfold Acs.denied Acs.allowsAll
+  rw [canonical_of_not_mapped hm]
+  obtain ⟨n, hn, hc⟩ := hd
+  have hne : a.deny.isEmpty = false := by
+    cases hdl : a.deny with
+    | nil => rw [hdl] at hn; cases hn
+    | cons x l => rfl
+  simp only [hne, Bool.false_eq_true, ↓reduceIte, Bool.and_eq_true, Bool.not_eq_true',
+    List.any_eq_true, List.any_eq_false]
+  exact ⟨fun m hm' => by simp [ha m hm'], n, hn, hc⟩
+
+/-- an IPv4-mapped address gets the verdict of the IPv4 address it maps -/
+theorem denied_mapped (a : Acs) (ip : Ip) (hm : ip.isMapped = true) :
+    a.denied ip = a.denied ⟨false, ip.addr % 2 ^ 32⟩ := by
+  have h4 : Ip.isMapped ⟨false, ip.addr % 2 ^ 32⟩ = false := by simp [Ip.isMapped]
+  unfold Acs.denied
+  rw [canonical_of_not_mapped h4]
+  unfold Ip.canonical
+  simp [hm]
+
+/-- **`denied_server_never_queried`**: no address the name-server filter denies is ever handed a
+query (root hints are configuration, not subject to the filter). -/
+theorem denied_server_never_queried (cfg : Config) (net : Net) (q : Query) (st : St)
+    (h : AddrInv cfg st) :
+    ∀ e ∈ (resolve cfg net q st).1.log, e.1 ∉ cfg.roots → cfg.serverFilter.denied e.1 = false := by
+  intro e he hr
+  rcases (ns_addrs_allowed cfg net q st h).1 e he with h' | h'
+  · exact absurd h' hr
+  · exact h'
+
+/-- **`denied_answer_never_returned`**: no address record whose address the answer filter denies is
+in a returned message or in the payload of a returned error. -/
+theorem denied_answer_never_returned (cfg : Config) (net : Net) (q : Query) (st : St)
+    (h : CacheAns cfg st) (hn : CacheAnsNeg cfg st) (x : Record) (ip : Ip)
+    (hip : x.data.ip? = some ip) (hd : cfg.answerFilter.denied ip = true) :
+    (∀ r, (resolve cfg net q st).2 = .ok r → x ∉ r.all) ∧
+    (∀ e, (resolve cfg net q st).2 = .error e → x ∉ errRecords e) := by
+  obtain ⟨_, _, h3, h4⟩ := answers_allowed cfg net q st h hn
+  have hx : ¬ AnsOK cfg x := by
+    unfold AnsOK addrAllowed
+    rw [hip]
+    simp [hd]
+  exact ⟨fun r hr hm => hx (h3 r hr x hm), fun e he hm => hx (h4 e he x hm)⟩
+
+namespace Ex
+def loop6 : Ip := ⟨true, 1⟩                               -- ::1
+def mapped : Ip := ⟨true, 0xffff * 2 ^ 32 + 0x2c010101⟩   -- ::ffff:44.1.1.1
+def compat : Ip := ⟨true, 0x2c010101⟩                     -- ::44.1.1.1
+def acs6 : Acs := ⟨[], [⟨true, 1, 128⟩, ⟨false, 0x2c010101, 32⟩]⟩  -- deny ::1/128, 44.1.1.1/32
+
+/-- `::1` is denied by the v6 entry; the mapped form of 44.1.1.1 by the v4 entry; the
+v4-compatible `::44.1.1.1` and `0.0.0.1` by nothing -/
+example : acs6.denied loop6 = true ∧ acs6.denied mapped = true ∧ acs6.denied compat = false ∧
+    acs6.denied ⟨false, 1⟩ = false ∧ acs6.denied ⟨false, 0x2c010101⟩ = true := by decide
+/-- a v6 network covering the mapped range is never consulted for a mapped address -/
+example : Acs.denied ⟨[], [⟨true, 0xffff * 2 ^ 32, 96⟩]⟩ mapped = false := by decide
+end Ex
+
+end acl
+
 /-! non-vacuity of the composite statements: the empty state satisfies every invariant -/
 example (cfg : Config) (net : Net) (q : Query) :=
   cached_in_pool_bailiwick cfg net q St.empty cacheClean_empty askedSound_empty
